@@ -16,6 +16,8 @@ def cases(rng, tier):
     # see the arguments of *its* defining call (static, computed and outermost-relative references)
     for i in range(n // 2):
         yield Case(program=gen.render(scope_program(rng)), tag='scope', nontrivial=True)
+    for i in range(n // 4):
+        yield Case(program=gen.render(fref_program(rng)), tag='fref', nontrivial=True)
     for i in range(n // 2):
         t = scope_program(rng) if rng.random() < 0.5 else g.program()
         yield Case(program=gen.render(bad_reference(rng, t)), tag='badref', nontrivial=True)
@@ -141,6 +143,31 @@ def scope_program(rng):
     return prog
 
 
+def fref_program(rng):
+    """d nested unary functions (d = 2 … 4); the innermost one calls one of the enclosing functions — any level,
+    named by a positive index (counted from the innermost) or the equivalent negative one (counted from the
+    outermost) — with a decremented counter.  Every level has its own base value, so calling the wrong function
+    changes the result."""
+    from ..gen import lit, call, bi, fundef, arg, funref
+    d = rng.randint(2, 4)
+    j = rng.randrange(d)                                   # the level that is called back
+    ref = (d - 1 - j) if rng.random() < 0.4 else -(j + 1)
+    as_value = rng.random() < 0.3                          # the reference passed through an identity function first
+    bases = [rng.randint(10, 99) * (lv + 1) for lv in range(d)]
+
+    def level(lv):
+        if lv == d - 1:
+            callee = funref(ref)
+            if as_value:
+                callee = call(fundef(arg(0)), callee)
+            body = bi('ㄷ', bi('ㄱ', arg(0), lit(lv + 2)), call(callee, bi('ㄷ', arg(0), lit(-1))))
+        else:
+            body = call(fundef(level(lv + 1)), arg(0))
+        return call(bi('ㅈ', arg(0), lit(1)), lit(bases[lv]), body)
+
+    return call(fundef(level(0)), lit(rng.randint(0, 6)))
+
+
 def bad_reference(rng, t):
     """one argument / function reference of the program replaced by an ill-scoped one — negative or too large a
     position, a frame that does not exist — wherever it stands (call argument, callee, body, nested): the
@@ -202,7 +229,7 @@ SPEC = {
     'relevant': relevant,
     'stream': 'C02 typed/closure program stream (main.main result vs uhdrv main)',
     'rule': 'type-directed random closed programs (closures returned / passed / nested ≤ depth, computed and negative '
-            'indices, Boolean / list / dict / string callables) plus closure families, the badref family (one reference made ill-scoped: negative / too large position, non-existent frame) and the scope family (one enclosing closure applied along several argument paths; inner bodies refer to outer parameters statically, as computed positions, from nested functions, outermost-relative); a case is non-trivial when its '
+            'indices, Boolean / list / dict / string callables) plus closure families, the fref family (2–4 nested functions, the innermost calling any enclosing level by positive or negative function index, directly or through an identity), the badref family (one reference made ill-scoped: negative / too large position, non-existent frame) and the scope family (one enclosing closure applied along several argument paths; inner bodies refer to outer parameters statically, as computed positions, from nested functions, outermost-relative); a case is non-trivial when its '
             'tree has ≥ 8 nodes; distinct by program text',
     'trusted': ['hand-written model UH/Model/{Interp,Builtins,Machine}.lean tied to the code by correspondence only'],
     'assumptions': ['host big integers = Lean Int; IEEE-754 + − × ÷ of the host on both sides'],
